@@ -161,6 +161,16 @@ CHECKS["C12"] = {
             "into provider calls is not constrained",
     "technique": "TLC design check of the cache model + TLC trace validation of real executions under TLC-enumerated schedules and virtual time",
 }
+CHECKS["C14"] = {
+    "text": "Codec.tla writes the forwarder -> protobuf -> ingestion translation tables as record transformations (round trip = identity "
+            "minus timestamps, checked by TLC) and enumerates the structure of maps and events x compression type x level; each case is "
+            "pushed through the real forwarder, an in-memory RoundTripper and the real ingestion router and compared; certainly-unreadable "
+            "bodies (truncated zlib, bad prefix, unknown encoding, broken adler32 trailer) and the HttpIngest request classes must be "
+            "answered >= 400 and dispatch nothing; two bodies alive at once (retry overlap) must both arrive as given.",
+    "design_ref": "6/C14",
+    "note": "model-generated round-trip testing: TLC proves nothing about protobuf, zlib or lz4; valid UTF-8 only, as the quantifier says",
+    "technique": "TLC-enumerated structural cases round-tripped through the real forwarder and the real ingestion endpoint",
+}
 NOT_APPLICABLE = [{"property_id": p, "reason": "check not built yet (build in progress; see DESIGN.md Appendix B for the order)"}
                   for p in ALL if p not in CHECKS]
 ENGINES[0]["serves_properties"] = sorted(CHECKS)
